@@ -28,7 +28,7 @@ ORACLE_NEEDS_JUDGE = True
 TIMEOUT = 900
 MANIFEST = {
     "level_text": "Kernel-checked inductive invariant (run_inv/step_inv) over a model of request/registerRequestState/deregisterRequestState/completeRequest/enqueueAsyncError/cancelInFlightRequests/dispatchOne's stash gate/unstashAll, for EVERY configuration (reentrancy installed or not, default mode, MaxInFlight) and EVERY script of events (requests with per-call mode override, ordinary messages, replies incl. duplicates, timeouts, cancels, late Then, mailbox batching, shutdown): a continuation runs at most once (C16_once) and exactly once when its request was completed by an envelope the requester dequeued (C16_exactly_once); continuations fired by a completion run inside dispatchOne — the only off-turn runs are late Then registrations made from outside the actor (C16_on_turn); inFlight <= MaxInFlight when positive (C16_limit); inFlight = |requestStates|, blocking = |stash-mode requests|, both 0 with an empty table (C16_counters) — the same clauses for a GRAIN requester over its own model (G_* theorems, C16G_holds), where additionally every completed request with a continuation ran it exactly once and the user mailbox is handled in global arrival order (G_step_seq); while blocking > 0 dispatchOne stashes every ordinary message and handles nothing (C16_stash_gate); the release appends the held messages to the mailbox in arrival order and the mailbox is FIFO (C16_release_order, pump_fifo); conjunction C16_holds. Tied to the code by a differential run of a real requester/responder pair against the model (equal per-op counters and requester log), and a separately written oracle of the property text evaluated on the implementation's observations.",
-    "level_note": "Reading: `completes` = the request state is completed once; shutdown (cancelInFlightRequests) completes pending requests WITHOUT running continuations, so exactly-once for the continuation is for requests completed while the requester keeps running. Request and RequestGrain issued by an ACTOR are both tied (the grain responder defers replies with DeferResponse). A GRAIN as the requester (grain_pid.go) has its own model Model/C16G.lean (pause instead of stash, separate response queue taken first, refused requests return a completed call, shutdown = queue-routed cancellation + PoisonPill, teardown runs continuations) with its own theorems (Props/C16G.lean: G_run_inv, G_once, G_exactly_once for EVERY completion, G_limit, G_counters, G_pause_gate, G_step_seq = global arrival order of the user mailbox, G_on_turn, C16G_holds) and its own harness mode (who=g; messages are enqueued by an accessor because TellGrain blocks for the handler's ack). Not modelled: RequestName, remote requesters, re-activation of a deactivated virtual grain by a late envelope, real timers (the harness makes the call the timer goroutine makes), concurrent off-turn completion racing a dequeue (complete/setCallback are modelled as atomic, which the state mutex provides), restart. The oracle's arrival-order and exactly-once clauses are evaluated only on scripts without hold/release/shutdown; the held messages re-enter BEHIND messages that arrived after the reply (order among held messages is kept, not the global arrival order) — the text says `in arrival order`, read as among themselves.",
+    "level_note": "Reading: `completes` = the request state is completed once; shutdown (cancelInFlightRequests) completes pending requests WITHOUT running continuations, so exactly-once for the continuation is for requests completed while the requester keeps running. Request, RequestName (to=n) and RequestGrain issued by an ACTOR are all tied (the grain responder defers replies with DeferResponse). A GRAIN as the requester (grain_pid.go) has its own model Model/C16G.lean (pause instead of stash, separate response queue taken first, refused requests return a completed call, shutdown = queue-routed cancellation + PoisonPill, teardown runs continuations) with its own theorems (Props/C16G.lean: G_run_inv, G_once, G_exactly_once for EVERY completion, G_limit, G_counters, G_pause_gate, G_step_seq = global arrival order of the user mailbox, G_on_turn, C16G_holds) and its own harness mode (who=g; messages are enqueued by an accessor because TellGrain blocks for the handler's ack). Not modelled: remote requesters, re-activation of a deactivated virtual grain by a late envelope, real timers (the harness makes the call the timer goroutine makes), concurrent off-turn completion racing a dequeue (complete/setCallback are modelled as atomic, which the state mutex provides), restart. The oracle's arrival-order and exactly-once clauses are evaluated only on scripts without hold/release/shutdown; the held messages re-enter BEHIND messages that arrived after the reply (order among held messages is kept, not the global arrival order) — the text says `in arrival order`, read as among themselves.",
     "technique": "Lean 4 inductive invariants over a model of the reentrant-request machinery (all event sequences) + differential run of a real requester/responder pair against the model + spec oracle on the implementation's observations",
 }
 TRUSTED = [
@@ -78,8 +78,10 @@ def gen_case(rng, maxlen=12, simple=None):
         else:
             ops.append(f"m{nm % 10}")
             nm += 1
-    to = " to=g" if rng.random() < 0.4 else ""
+    to = rng.choice(["", "", "", " to=g", " to=g", " to=n"])
     who = "who=g " if rng.random() < 0.4 else ""
+    if who and to == " to=n":
+        to = ""
     if who:
         ops = [("m" + o[1:]) if o[0] == "a" else o for o in ops]  # peer requests are tied for the actor requester only
     return f"{who}mode={mode} max={mx}{to} | " + " ".join(ops)
@@ -110,7 +112,7 @@ def tag(case, impl):
     cfg = [c for c in case.split("|")[0].split() if c != "who=g"]
     who = "grainreq" if case.startswith("who=g") else "actorreq"
     kind = "simple" if not any(o in ("H", "L", "S") for o in case.split("|")[1].split()) else "batched"
-    return f"{cfg[0]}/{'lim' if cfg[1] != 'max=0' else 'nolim'}/{kind}/{'grain' if 'to=g' in cfg else 'actor'}/{who}"
+    return f"{cfg[0]}/{'lim' if cfg[1] != 'max=0' else 'nolim'}/{kind}/{'grain' if 'to=g' in cfg else ('byname' if 'to=n' in cfg else 'actor')}/{who}"
 
 
 def oracle(case, impl, judge):
